@@ -149,3 +149,52 @@ Proof.
   unfold desc_dom. split; [repeat constructor|]. split; [reflexivity|].
   eexists. split; [vm_compute; reflexivity|]. repeat constructor; cbv; intuition discriminate.
 Qed.
+
+(* ---- the gate above is the source ----
+   parse_psi_data and what it is made of -- the section loop (`for i.HasBytesLeft() && !stop`, fuel = input length + 1),
+   parse_psi_section with the CRC gate (Seek to the CRC_32 field, parseCRC32, Seek back to the table id, computeCRC32 over
+   [table_id, CRC_32), the comparison, the final Seek to the end of the section), the section header with its four
+   offsets, the syntax header and the dispatch on the table id -- are equal, as computations in the iterator monad and on
+   every iterator whose bytes are in 0..255, to the definitions that go/gen (psigen.go) translates from the CURRENT source
+   of parsePSIData / parsePSISection / parseCRC32 / parsePSISectionHeader / parsePSISectionSyntaxHeader /
+   parsePSISectionSyntax into Gen/PsiGen.v (its Section Variables parseDescriptors, parseDVBTime, parseDVBDurationSeconds
+   instantiated with the models' functions).  An edit of one of these Go functions -- the gate made conditional on
+   section_syntax_indicator, skipped for a zero CRC field, a changed offset -- regenerates Gen/PsiGen.v and this
+   theorem (Proofs/PsiGenEq.v) stops checking. *)
+Require Import Model.Dvb Gen.PsiGen Proofs.ParseGenBits Proofs.PsiGenSim Proofs.PsiGenEq.
+Theorem C09_gate_is_source :
+  same_on_bytes parse_crc32 PsiGen.parseCRC32 /\
+  same_on_bytes parse_psi_section_header (ibind PsiGen.parsePSISectionHeader (fun y => iret (hdr_pack y))) /\
+  same_on_bytes parse_psi_section_syntax_header PsiGen.parsePSISectionSyntaxHeader /\
+  (forall h e, same_on_bytes (parse_psi_section_syntax h e)
+                 (PsiGen.parsePSISectionSyntax parse_dvb_duration_seconds parse_dvb_time parse_descriptors (Some h) e)) /\
+  same_on_bytes parse_psi_section (PsiGen.parsePSISection parse_dvb_duration_seconds parse_dvb_time parse_descriptors) /\
+  same_on_bytes parse_psi_data (PsiGen.parsePSIData parse_dvb_duration_seconds parse_dvb_time parse_descriptors) /\
+  (forall bs, bytes_ok bs ->
+     parse_psi_data_bytes bs = run_iter (PsiGen.parsePSIData parse_dvb_duration_seconds parse_dvb_time parse_descriptors) bs).
+Proof. exact psi_gate_is_source. Qed.
+Print Assumptions C09_gate_is_source.
+(* the translated parsePSIData runs: it accepts the written example PAT and rejects it with one bit flipped *)
+Example C09_gate_is_source_inhabited :
+  match write_psi_data C09_example_pat with
+  | Ok bs =>
+      andb (bytes_okb bs)
+      (andb match run_iter (PsiGen.parsePSIData parse_dvb_duration_seconds parse_dvb_time parse_descriptors) bs with
+            | Ok d => (length (psi_to_data d zero_Packet 0) =? 1)%nat
+            | _ => false
+            end
+            match run_iter (PsiGen.parsePSIData parse_dvb_duration_seconds parse_dvb_time parse_descriptors)
+                           (firstn 10 bs ++ [Z.lxor (nth 10 bs 0) 4] ++ skipn 11 bs) with
+            | Err _ => true
+            | _ => false
+            end)
+  | _ => false
+  end = true.
+Proof. vm_compute. reflexivity. Qed.
+
+(* the descriptor loops the sections that pass the gate are decoded with parse_descriptors: it and 21 of its 23 body parsers are the source as well.
+   The statement is Proofs/PsiGenDesc2.descriptor_parsers_tie, spelled out as C14_loop_is_source in Props/C14.v. *)
+Require Import Proofs.PsiGenDesc2.
+Theorem C09_descriptors_are_source : descriptor_parsers_tie.
+Proof. exact descriptor_loop_is_source. Qed.
+Print Assumptions C09_descriptors_are_source.
